@@ -11,6 +11,7 @@ import (
 	"encoding/json"
 	"fmt"
 	"os"
+	"sort"
 	"strconv"
 	"strings"
 
@@ -289,6 +290,18 @@ func enumStandalone(yield func(StandaloneCase) bool) {
 		if !emit(short, "sample", base) {
 			return
 		}
+		// every member of the sample removed in turn (required ones included)
+		for _, name := range sortedKeys(base) {
+			inst := map[string]any{}
+			for k, x := range base {
+				if k != name {
+					inst[k] = x
+				}
+			}
+			if !emit(short, "without:"+name, inst) {
+				return
+			}
+		}
 		names, nodes := s.Props(root)
 		for _, name := range names {
 			if _, has := base[name]; has || strings.HasPrefix(name, "$") {
@@ -350,4 +363,122 @@ func judgeStandalone(c StandaloneCase, o *vh.Obs) {
 	if len(rej) == 0 {
 		o.Note("%s: accepted by the library and by the published schemas", what)
 	}
+}
+
+// schemaAt walks the published schemas along a JSON pointer of an envelope
+// tree (switching type at every object that carries a $schema).
+func schemaAt(s *pubschema.Set, tree any, ptr string) (pubschema.Node, any, bool) {
+	sch, _ := s.Root(pubschema.FullID("envelope"))
+	cur := tree
+	for _, tok := range ptrTokens(ptr) {
+		switch t := cur.(type) {
+		case map[string]any:
+			if id, ok := t["$schema"].(string); ok {
+				if r, ok := s.Root(id); ok {
+					sch = r
+				}
+			}
+			_, nodes := s.Props(sch)
+			next, ok := t[tok]
+			if !ok {
+				return pubschema.Node{}, nil, false
+			}
+			sch, cur = nodes[tok], next
+		case []any:
+			i, err := strconv.Atoi(tok)
+			if err != nil || i < 0 || i >= len(t) {
+				return pubschema.Node{}, nil, false
+			}
+			it, ok := s.Items(sch)
+			if !ok {
+				return pubschema.Node{}, nil, false
+			}
+			sch, cur = it, t[i]
+		default:
+			return pubschema.Node{}, nil, false
+		}
+	}
+	if m, ok := cur.(map[string]any); ok {
+		if id, ok := m["$schema"].(string); ok {
+			if r, ok := s.Root(id); ok {
+				sch = r
+			}
+		}
+	}
+	return sch, cur, true
+}
+
+// enumRequiredWithSiblings: a member serialised without omitempty is removed
+// while one absent optional sibling is present - rules of the kind "required
+// unless ..." only show in such pairs.
+func enumRequiredWithSiblings(yield func(MutCase) bool) {
+	loadBases()
+	s := pubschema.MustLoad()
+	seen := map[string]bool{}
+	idx := 0
+	for _, b := range bases {
+		tree, err := decodeTree(b.JSON)
+		if err != nil {
+			continue
+		}
+		for _, st := range b.Sites {
+			if !st.Present || st.Optional || st.Calc || excluded(st) || st.Field == "" || seen[st.Field] {
+				continue
+			}
+			i := strings.LastIndex(st.Ptr, "/")
+			if i <= 0 {
+				continue
+			}
+			parentPtr, member := st.Ptr[:i], st.Ptr[i+1:]
+			psch, pval, ok := schemaAt(s, tree, parentPtr)
+			pm, isObj := pval.(map[string]any)
+			if !ok || !isObj {
+				continue
+			}
+			seen[st.Field] = true
+			names, nodes := s.Props(psch)
+			for _, name := range names {
+				if _, has := pm[name]; has || name == member || strings.HasPrefix(name, "$") {
+					continue
+				}
+				target, wrap := nodes[name], func(x any) any { return x }
+				if s.Kind(target) == "array" {
+					if it, ok := s.Items(target); ok {
+						target, wrap = it, func(x any) any { return []any{x} }
+					}
+				}
+				v := s.Sample(target, 0)
+				if tmpl, ok := typeSamples[s.TypeID(target)]; ok {
+					var tv any
+					if json.Unmarshal([]byte(tmpl), &tv) == nil {
+						v = tv
+					}
+				}
+				raw, err := json.Marshal(wrap(v))
+				if err != nil {
+					continue
+				}
+				idx++
+				if idx%vh.Cfg().Shards != vh.Cfg().Shard {
+					continue
+				}
+				c := MutCase{Path: b.Path, Ops: []Op{
+					{Op: "set", Ptr: parentPtr + "/" + escPtr(name), Value: raw, Kind: "absent:valid:" + name},
+					{Op: "remove", Ptr: st.Ptr, Kind: st.Kind + ":drop-required:" + st.GoType},
+				}}
+				if !yield(c) {
+					return
+				}
+			}
+		}
+	}
+}
+
+func sortedKeys(m map[string]any) []string {
+	out := make([]string, 0, len(m))
+	for k := range m {
+		out = append(out, k)
+	}
+	sort.Strings(out)
+	return out
 }
